@@ -24,9 +24,9 @@ def build_key(pflags, subflags, secret=True, newer=None, second_uid=None, uid_na
     pbody = rkeys.public_body(prim)
     t = [K.T0 + 100]
 
-    def sig(key, typ, subj, flags, unhashed=b'', at=None):
+    def sig(key, typ, subj, flags, unhashed=b'', at=None, extra=b''):
         t[0] += 10
-        hashed = rsig.sp_created(at if at is not None else t[0]) + rsig.sp_issuer_fpr(rkeys.fingerprint(key))
+        hashed = rsig.sp_created(at if at is not None else t[0]) + rsig.sp_issuer_fpr(rkeys.fingerprint(key)) + extra
         if flags is not None:
             hashed += wire.subpacket(27, bytes([flags]))
         if typ == 0x13:
@@ -38,8 +38,9 @@ def build_key(pflags, subflags, secret=True, newer=None, second_uid=None, uid_na
     out = bytearray(rkeys.secret_packet(prim) if secret else rkeys.public_packet(prim))
     uid1 = uid_names[0] if uid_names else b'First Identity <first@example.org>'
     out += wire.packet(13, uid1) + sig(prim, 0x13, {'key': pbody, 'uid': uid1}, pflags)
+    nx = newer[2] if newer and len(newer) > 2 else b''
     if newer and newer[0] == -1:
-        out += sig(prim, 0x13, {'key': pbody, 'uid': uid1}, newer[1], at=K.T0 + 5000)
+        out += sig(prim, 0x13, {'key': pbody, 'uid': uid1}, newer[1], at=K.T0 + 5000, extra=nx)
     if second_uid is not None:
         uid2 = uid_names[1] if uid_names else b'Second Identity <second@example.org>'
         out += wire.packet(13, uid2) + sig(prim, 0x13, {'key': pbody, 'uid': uid2}, second_uid[0])
@@ -48,15 +49,15 @@ def build_key(pflags, subflags, secret=True, newer=None, second_uid=None, uid_na
         subj = {'key': pbody, 'subkey': sbody}
         out += rkeys.secret_packet(s, sub=True) if secret else rkeys.public_packet(s, sub=True)
 
-        def binding(flags, at=None):
+        def binding(flags, at=None, extra=b''):
             un = b''
             if flags is None or flags & 0x02:
                 inner = rsig.make(s, 0x19, 8, rsig.sp_created(K.T0 + 50) + rsig.sp_issuer_fpr(rkeys.fingerprint(s)), rsig.sp_issuer(rkeys.keyid(s)), subj)
                 un = rsig.sp_embedded(inner)
-            return sig(prim, 0x18, subj, flags, un, at=at)
+            return sig(prim, 0x18, subj, flags, un, at=at, extra=extra)
         out += binding(fl)
         if newer and newer[0] == i:
-            out += binding(newer[1], at=K.T0 + 5000)
+            out += binding(newer[1], at=K.T0 + 5000, extra=nx)
     return bytes(out), prim, subs
 
 
@@ -394,10 +395,13 @@ class Prop(object):
                     pflags, subflags, eff = 0x01, [0x20, old], [0x01, 0x20, new]
                 if where == -1 and (old is None or new is None) and False:
                     continue
-                blob, prim, subs = build_key(pflags, subflags, newer=(where, new))
-                label = 'component %d: older self-signature grants %s, newer one %s' % (where + 1, oname, nname)
-                self._ops(r, blob, prim, subs, eff, label, {'part': 'newer', 'component': 'primary' if where == -1 else 'subkey'}, dict(case, only=[nname, where]),
-                          forms=('public', 'private'), enforce_opts=(True,))
+                # (the newer self-signature plain, and carrying an explicit signature expiration time of zero - RFC 4880 5.2.3.10: it never expires -
+                # or key expiration time of zero - 5.2.3.6: the key never expires - as some producers always write them)
+                for xname, extra in (('', b''), (', with signature expiration time 0', wire.subpacket(3, bytes(4))), (', with key expiration time 0', wire.subpacket(9, bytes(4)))):
+                    blob, prim, subs = build_key(pflags, subflags, newer=(where, new, extra))
+                    label = 'component %d: older self-signature grants %s, newer one %s%s' % (where + 1, oname, nname, xname)
+                    self._ops(r, blob, prim, subs, eff, label, {'part': 'newer', 'component': 'primary' if where == -1 else 'subkey', 'zero': bool(extra)}, dict(case, only=[nname, where]),
+                              forms=('public', 'private'), enforce_opts=(True,))
         r.dim('old', oname)
         r.samples.append({'older_flags': oname})
         return r
